@@ -403,7 +403,7 @@ func checkC06(c *Check) {
 	}
 
 	// ---------------- C side ----------------
-	P, err := LoadC(repoDir(), false)
+	P, err := LoadC(repoDirC(), false)
 	if err != nil {
 		c.Rule("R6.3", "C error exit", 1).Und("lib/runtime", token.NoPos, err.Error())
 		return
